@@ -196,12 +196,12 @@ func runOrch(r *prng.R, s *out.Sink, tier string) {
 					quiet("dkgRegRbc", id, kd)
 					act("dkgRegSync", id, km, true)
 					switch path {
-					case 2: // caller gives up during the second synchronisation
+					case 2: // caller gives up during the second synchronisation (the callback sees the cancellation too and unregisters)
 						cancel()
 						<-done
-						act("dkgExit", id, kd, true)
 						g2.release <- false
 						<-g1.done
+						quiet("dkgExit", id, kd)
 						act("dkgUnregSync", id, km, true)
 					case 3: // backend fails
 						g2.release <- true
